@@ -88,6 +88,14 @@ pub fn rt_oracle(c: &Rt) -> Verdict {
         }
         Err(err) => return Verdict::Fail(format!("serialization fails: {err}")),
     }
+    // and through a data format that is not human readable (bincode / postcard style)
+    match lib!(crate::binfmt::to_tokens(&e)) {
+        Ok(t) => match lib!(crate::binfmt::from_tokens::<Epoch>(&t)) {
+            Ok(p) => ensure!(same(&p, &e), "round trip through a non-human-readable serde format gives {} count {} (tokens {:?})", SCALE_NAMES[scale_index(p.time_scale)], count(p.duration), t),
+            Err(err) => return Verdict::Fail(format!("what Serialize writes for a non-human-readable format ({:?}) is not accepted by Deserialize: {}", t, err)),
+        },
+        Err(err) => return Verdict::Fail(format!("serialization to a non-human-readable format fails: {err}")),
+    }
     // RFC 3339 of a UTC epoch
     if c.s == S_UTC {
         for (what, t) in [("Formatter(RFC3339)", lib!(format!("{}", Formatter::new(e, hifitime::efmt::consts::RFC3339)))), ("Formatter(RFC3339_FLEX)", lib!(format!("{}", Formatter::new(e, hifitime::efmt::consts::RFC3339_FLEX))))] {
